@@ -17,6 +17,10 @@ pub fn make_header(prop: &str, build_profile: &str, verif_seed: u64, run_index: 
     let kernel = if r.chance(1, 2) { "fast" } else { "robust" };
     let profile = profile_for(prop, false);
     let family = *r.pick(profile.families);
+    let mut params = BTreeMap::new();
+    if prop == "C19" {
+        params.insert("tick_limit".to_string(), 20_000_000i64);
+    }
     Header {
         property: prop.to_string(),
         profile: build_profile.to_string(),
@@ -24,7 +28,7 @@ pub fn make_header(prop: &str, build_profile: &str, verif_seed: u64, run_index: 
         dim,
         kernel: kernel.to_string(),
         family: family.to_string(),
-        params: BTreeMap::new(),
+        params,
     }
 }
 
@@ -84,6 +88,88 @@ pub fn profile_for(prop: &str, thorough: bool) -> Profile {
                 w.policy = 8;
             });
         }
+        "C01" => {
+            p.min_len = 0;
+            p.max_len = 0;
+            p.random_ctor = true;
+            p.always_construct = true;
+            p.ctor_fault_permille = 450;
+            p.knob_permille = 300;
+            p.families = &["grid", "dyadic", "jitter", "cosph", "cluster", "wide", "tiny", "dyadic", "grid"];
+        }
+        "C05" => {
+            p.max_len = if thorough { 14 } else { 8 };
+            p.multi = true;
+            p.families = &["grid", "dyadic", "jitter", "dyadic"];
+        }
+        "C09" => {
+            p.multi = true;
+            p.random_ctor = true;
+            p.class_a_permille = 100;
+            p.max_len = if thorough { 22 } else { 14 };
+            p.families = &["grid", "dyadic", "cluster", "cluster", "wide", "jitter"];
+            p.tune = Some(|w, _r, _d| {
+                w.k1_insert = 14;
+                w.k1_remove = 10;
+                w.remove = 20;
+                w.repair_adv = 8;
+                w.touch = 5;
+            });
+        }
+        "C10" => {
+            p.max_len = if thorough { 20 } else { 12 };
+            p.tune = Some(|w, _r, d| {
+                w.k2 = 16;
+                w.k3 = if d >= 3 { 8 } else { 1 };
+                w.remove = 14;
+            });
+        }
+        "C11" => {
+            p.multi = true;
+            p.class_a_permille = 150;
+            p.knob_permille = 250;
+            p.max_len = if thorough { 26 } else { 16 };
+            p.tune = Some(|w, _r, _d| {
+                w.remove = 30;
+                w.insert = 30;
+                w.repair_adv = 10;
+                w.touch = 4;
+            });
+        }
+        "C13" => {
+            p.max_len = if thorough { 16 } else { 9 };
+            p.multi = true;
+            p.families = &["dyadic", "dyadic", "grid", "jitter", "cluster", "wide"];
+            p.tune = Some(|w, _r, _d| {
+                w.remove = 25;
+                w.k1_insert = 6;
+                w.k2 = 8;
+            });
+        }
+        "C19" => {
+            p.class_a_permille = 200;
+            p.knob_permille = 500;
+            p.multi = true;
+            p.random_ctor = true;
+            p.ctor_fault_permille = 200;
+            p.nonfinite_permille = 60;
+            p.max_len = if thorough { 30 } else { 18 };
+            p.families = &["extreme", "extreme", "grid", "dyadic", "jitter", "cosph", "cluster", "wide", "tiny"];
+            p.tune = Some(|w, _r, d| {
+                w.k2 = 12;
+                w.k3 = if d >= 3 { 8 } else { 2 };
+                w.k2_inv = if d >= 3 { 6 } else { 2 };
+                w.k3_inv = if d >= 4 { 6 } else { 2 };
+                w.k1_insert = 8;
+                w.k1_remove = 8;
+                w.policy = 10;
+                w.repair_adv = 6;
+                w.touch = 3;
+            });
+        }
+        "C14" => {
+            p.families = &["dyadic", "dyadic", "grid", "jitter", "cosph"];
+        }
         "C15" => {
             p.class_a_permille = 150;
             p.knob_permille = 150;
@@ -127,6 +213,41 @@ fn run_generic<K: SimKernel<D>, const D: usize>(header: &Header, replay: Option<
             let mut ms: Vec<&mut dyn Monitor<K, D>> = vec![&mut m];
             history::run::<K, D>(header, &profile, replay, &mut ms)
         }
+        "C01" => {
+            let mut m = monitors::c01::C01;
+            let mut ms: Vec<&mut dyn Monitor<K, D>> = vec![&mut m];
+            history::run::<K, D>(header, &profile, replay, &mut ms)
+        }
+        "C05" => {
+            let mut m = monitors::c05::C05 { thorough };
+            let mut ms: Vec<&mut dyn Monitor<K, D>> = vec![&mut m];
+            history::run::<K, D>(header, &profile, replay, &mut ms)
+        }
+        "C09" => {
+            let mut m = monitors::c09::C09 { former: Vec::new() };
+            let mut ms: Vec<&mut dyn Monitor<K, D>> = vec![&mut m];
+            history::run::<K, D>(header, &profile, replay, &mut ms)
+        }
+        "C10" => {
+            let mut m = monitors::c10::C10 { stale: Vec::new() };
+            let mut ms: Vec<&mut dyn Monitor<K, D>> = vec![&mut m];
+            history::run::<K, D>(header, &profile, replay, &mut ms)
+        }
+        "C11" => {
+            let mut m = monitors::c11::C11::<K, D>::new();
+            let mut ms: Vec<&mut dyn Monitor<K, D>> = vec![&mut m];
+            history::run::<K, D>(header, &profile, replay, &mut ms)
+        }
+        "C13" => {
+            let mut m = monitors::c13::C13 { thorough };
+            let mut ms: Vec<&mut dyn Monitor<K, D>> = vec![&mut m];
+            history::run::<K, D>(header, &profile, replay, &mut ms)
+        }
+        "C19" => {
+            let mut m = monitors::c19::C19;
+            let mut ms: Vec<&mut dyn Monitor<K, D>> = vec![&mut m];
+            history::run::<K, D>(header, &profile, replay, &mut ms)
+        }
         "C15" => {
             let mut m = monitors::c15::C15;
             let mut ms: Vec<&mut dyn Monitor<K, D>> = vec![&mut m];
@@ -142,6 +263,14 @@ fn run_generic<K: SimKernel<D>, const D: usize>(header: &Header, replay: Option<
 }
 
 pub fn run_header(header: &Header, replay: Option<&[OpRec]>, thorough: bool) -> RunReport {
+    if header.property == "C14" {
+        return match header.dim {
+            2 => crate::c14::run::<2>(header, replay, thorough),
+            3 => crate::c14::run::<3>(header, replay, thorough),
+            4 => crate::c14::run::<4>(header, replay, thorough),
+            _ => crate::c14::run::<5>(header, replay, thorough),
+        };
+    }
     crate::dispatch!(header.dim, header.kernel.as_str(), run_generic, header, replay, thorough)
 }
 
